@@ -8,7 +8,7 @@ import time
 
 import z3
 
-from . import common
+from . import common, mainrun
 from ..interp import Frame, Interp
 from ..native import build_native, run_native
 from ..prog import Program, Unsupported
@@ -247,13 +247,29 @@ def run(prop, tier, seed, repo, jobs):
             inconclusive.append('native validation diverged: good rc=%s bad rc=%s' % (r1, r2))
     except Exception as ex:   # pragma: no cover
         inconclusive.append('native validation failed: %s' % ex)
+    # "reports an error before running or deleting anything": the real main() over project families, with --clean
+    main_stage = {'variants': 0, 'paths': 0}
+    try:
+        from . import mainrun
+        st = mainrun.stage(prop, tier, repo, jobs)
+        violations += st['violations']
+        inconclusive += st['inconclusive']
+        samples += st['samples']
+        nob += st['nob']
+        ndis += st['ndis']
+        npaths += st['paths']
+        fns = sorted(set(fns) | st['fns'])
+        main_stage = {'variants': st['variants'], 'paths': st['paths']}
+    except Exception as ex:   # pragma: no cover
+        inconclusive.append('main() stage failed: %s' % ex)
     wall = time.time() - t0
     coverage = {
+        'main_stage': main_stage,
         'explanation': 'symbolic execution of yaml::Config::load (import walk, name checks) and ir::Config::from over three directories whose project names and import edges are solver variables; z3 query per path against the documented acceptance rule',
         'obligations': nob, 'discharged': ndis, 'paths': npaths, 'evaluations': max(npaths, 1), 'distinct_nontrivial': max(npaths, 2),
         'rule': 'one evaluation = one feasible symbolic path', 'samples': samples or [{'note': 'none'}], 'functions_encoded': fns,
         'bounds': [{'directories': DIRS, 'candidate_names': {k: [str(x) for x in v] for k, v in NAMES.items()}, 'candidate_imports': IMPORTS}], 'traces_validated_against_impl': validated,
         'outside_claim': ['the YAML/serde level: arbitrary byte strings, unknown keys, exactly-one-kind (serde_yaml + derive; not encodable within reach)', 'more than three projects'], 'exhaustive': False,
     }
-    common.write_evidence(prop, tier, seed, 'other', coverage, ASSUMPTIONS, wall, len(violations))
+    common.write_evidence(prop, tier, seed, 'other', coverage, ASSUMPTIONS + [mainrun.ASSUMPTION], wall, len(violations))
     return common.finish(prop, violations, inconclusive, known_lines)
